@@ -1,0 +1,28 @@
+//go:build verif
+
+// Safety-sweep contracts (no explicit panic, index/slice in range, allocation
+// sizes non-negative, wire-decoded pointers checked before use) for functions
+// that need no precondition. Generated from a zero-annotation sweep; checked by
+// /verif/govc. Comment-only file.
+package http
+
+//@ func http.debugDecryptedMessage
+//@   props C10(sweep)
+//@   sweep bounds,panic,make,nilmem,div
+
+//@ func http.debugRequest
+//@   props C10(sweep)
+//@   sweep bounds,panic,make,nilmem,div
+
+//@ func http.debugRequestOut
+//@   props C10(sweep)
+//@   sweep bounds,panic,make,nilmem,div
+
+//@ func http.debugResponse
+//@   props C10(sweep)
+//@   sweep bounds,panic,make,nilmem,div
+
+//@ func http.debugUnencryptedMessage
+//@   props C10(sweep)
+//@   sweep bounds,panic,make,nilmem,div
+
